@@ -2,7 +2,7 @@
 
 from ..fn import FA
 from .bsplinelib import check_iterfit_order, check_iterfit_masks, check_iterfit_loop, check_ict, MATH
-from .c17 import check_thresholds
+from .c17 import check_thresholds, check_qdone
 
 META = {
     'property': 'C10',
@@ -32,4 +32,5 @@ def run(ctx):
     f = ctx.repo.func(MATH, 'djs_reject')
     ctx.cover(f)
     check_thresholds(ctx, f, FA(f), 'C10.LIMITS')
+    check_qdone(ctx, f, FA(f), 'C10.LOOP')
     check_ict(ctx, ctx.repo, 'C10.ROWS')
